@@ -343,6 +343,8 @@ func parseLinkDestination(block text.Reader) ([]byte, bool) {
 			} else if c == '>' {
 				block.Advance(i + 1)
 				return line[1:i], true
+			} else if c == '<' {
+				return nil, false
 			}
 			i++
 		}
